@@ -17,4 +17,5 @@ MUTANTS = [
     M('C15', 'memory read command writes the word back', BRK, "            memory_word_value = mem.get_word(address)\n", "            memory_word_value = mem.get_word(address)\n            mem._set_memory_word(address // w, memory_word_value)\n", 'C15.READONLY'),
     M('C15', 'variable decode reads the flip words', BRK, "range(first_address + w, last_address, 2 * w)", "range(first_address, last_address, 2 * w)", 'C15.DECODE'),
     M('C15', 'variable decode data offset w/o #w', BRK, "        data_bits = (word >> w.bit_length()) & ((1 << bits_per_word) - 1)", "        data_bits = (word >> (w.bit_length() - 1)) & ((1 << bits_per_word) - 1)", 'C15.DECODE'),
+    M('C15', 'EQ continue and continue_all share the reset', 'flipjump/interpreter/debugging/breakpoints.py', "        elif command == 'continue':\n            self.next_break = None\n        elif command == 'continue_all':\n            self.next_break = None\n            raise BreakpointHandlerUnnecessary()", "        elif command in ('continue', 'continue_all'):\n            self.next_break = None\n            if command == 'continue_all':\n                raise BreakpointHandlerUnnecessary()", None),
 ]
